@@ -830,6 +830,17 @@ func (r *logsResource) handler() *memHandler[any] {
 				}
 				return func(r []any) bool { return cmpOp(operator, cmpTime(time.New(r[3].(gotime.Time)), v)) }, nil
 			case "type":
+				if operator == queries.OperatorIn {
+					vs := anyStrings(value)
+					return func(r []any) bool {
+						for _, v := range vs {
+							if r[1].(string) == v {
+								return true
+							}
+						}
+						return false
+					}, nil
+				}
 				sv, _ := value.(string)
 				if operator == queries.OperatorLike {
 					return func(r []any) bool { return likeMatch(r[1].(string), sv) }, nil
@@ -910,7 +921,41 @@ func (s *Store) Schemas() common.PaginatedResource[ledger.Schema, any] {
 				return tab, err
 			},
 			resolve: func(q common.ResourceQuery[any], operator, property string, value any) (func([]any) bool, error) {
-				return nil, fmt.Errorf("unsupported filter: %s", property)
+				switch property {
+				case "version":
+					switch operator {
+					case queries.OperatorIn:
+						vs := anyStrings(value)
+						return func(r []any) bool {
+							for _, v := range vs {
+								if r[0].(string) == v {
+									return true
+								}
+							}
+							return false
+						}, nil
+					case queries.OperatorLike:
+						sv, _ := value.(string)
+						return func(r []any) bool { return likeMatch(r[0].(string), sv) }, nil
+					}
+					sv, _ := value.(string)
+					return func(r []any) bool { return cmpOp(operator, strings.Compare(r[0].(string), sv)) }, nil
+				case "created_at":
+					v, ok := toTime(value)
+					if !ok {
+						return nil, fmt.Errorf("invalid date %v", value)
+					}
+					return func(r []any) bool {
+						switch x := r[1].(type) {
+						case gotime.Time:
+							return cmpOp(operator, cmpTime(time.New(x), v))
+						case time.Time:
+							return cmpOp(operator, cmpTime(x, v))
+						}
+						return false
+					}, nil
+				}
+				return nil, fmt.Errorf("memstore: harness gap: unsupported schema filter: %s", property)
 			},
 		}
 	}
